@@ -2049,12 +2049,19 @@ func c11Build(ctx *core.Ctx, env *c11Env, e *gen.Entry, r *rand.Rand, kind strin
 			children = append(children, cf.rgs...)
 		}
 		r.Shuffle(len(children), func(i, j int) { children[i], children[j] = children[j], children[i] })
-		m, err := parquet.MergeRowGroups(children, sortingB)
+		// one case in four drops duplicated rows: deduplication spans the (disjoint) segments and
+		// each input may hold repeated keys, so no segment may be written on its own
+		mergeCfg, dropping := sortingB, ""
+		if r.Intn(4) == 0 {
+			mergeCfg = parquet.SortingRowGroupConfig(parquet.SortingColumns(parquet.Ascending(key)), parquet.DropDuplicatedRows(true))
+			dropping = " dropping duplicated rows"
+		}
+		m, err := parquet.MergeRowGroups(children, mergeCfg)
 		if err != nil {
 			return fail("merge", err)
 		}
 		c.srcs = []*c11Source{{kind: kind, rg: m}}
-		c.srcDesc = fmt.Sprintf("MergeRowGroups of %d disjoint sorted files/buffers by %s (%T)", len(children), key, m)
+		c.srcDesc = fmt.Sprintf("MergeRowGroups of %d disjoint sorted files/buffers by %s%s (%T)", len(children), key, dropping, m)
 		c.schema = m.Schema()
 		if leaf, ok := c.schema.Lookup(key); ok {
 			c.keyCol = leaf.ColumnIndex
@@ -2248,7 +2255,7 @@ func c11F9(ctx *core.Ctx, env *c11Env, d interface {
 }
 
 func RunC11(ctx *core.Ctx) {
-	ctx.SetRule("catalogue struct types x random rows x source configuration A x destination configuration B (page version, codec, page buffer, MaxRowsPerRowGroup, dictionary limit, DataPageStatistics on/off, SkipPageStatistics, SkipPageBounds, deprecated statistics, ColumnIndexSizeLimit 1..64, default encodings, bloom filters; B either drawn independently or A with one axis changed) x source kind {file row groups, Buffer/GenericBuffer, row-range views, MultiRowGroup (files, views, buffers, foreign children), MergeRowGroups unsorted / sorted / dropping duplicates, dedup wrapper, ConvertRowGroup, foreign RowGroup, row-dropping foreign RowGroup, MultiRowGroup over a row-dropping child, MergeRowGroups of 2-4 disjoint sorted files/buffers (packed segments) with MaxRowsPerRowGroup around the total} x destination writer already buffering rows from WriteRows (one case in three, always for packed merges); nested MultiRowGroups mixing file and wrapper members with MaxRowsPerRowGroup below every segment; deferred bloom filter buffers; sources of 600/1030 rows (repeated columns beyond the 1024-value re-encode batches); oracle on the output: readable row by row and accepted by the C02 Lean spec reader (file.check), rows of (nested) multi row groups = members' Rows() in order, rows/order, settings, every row group <= MaxRowsPerRowGroup, configured bloom filters contain every stored value; non-trivial = at least 2 rows and A differs from B")
+	ctx.SetRule("catalogue struct types x random rows x source configuration A x destination configuration B (page version, codec, page buffer, MaxRowsPerRowGroup, dictionary limit, DataPageStatistics on/off, SkipPageStatistics, SkipPageBounds, deprecated statistics, ColumnIndexSizeLimit 1..64, default encodings, bloom filters; B either drawn independently or A with one axis changed) x source kind {file row groups, Buffer/GenericBuffer, row-range views, MultiRowGroup (files, views, buffers, foreign children), MergeRowGroups unsorted / sorted / dropping duplicates, dedup wrapper, ConvertRowGroup, foreign RowGroup, row-dropping foreign RowGroup, MultiRowGroup over a row-dropping child, MergeRowGroups of 2-4 disjoint sorted files/buffers (packed segments; one in four dropping duplicated rows) with MaxRowsPerRowGroup around the total} x destination writer already buffering rows from WriteRows (one case in three, always for packed merges); destination writer Reset onto a fresh buffer and handed the same rows and row groups once more (one case in four, always when chunks were spliced: all oracles on the second output, counters repeat, source file metadata unchanged); nested MultiRowGroups mixing file and wrapper members with MaxRowsPerRowGroup below every segment; deferred bloom filter buffers; sources of 600/1030 rows (repeated columns beyond the 1024-value re-encode batches); oracle on the output: readable row by row and accepted by the C02 Lean spec reader (file.check), rows of (nested) multi row groups = members' Rows() in order, rows/order, settings, every row group <= MaxRowsPerRowGroup, configured bloom filters contain every stored value; non-trivial = at least 2 rows and A differs from B")
 	// fixed case first (corpus)
 	{
 		env := &c11Env{chunkOf: map[*parquet.FileColumnChunk]*c11Chunk{}}
@@ -2258,7 +2265,7 @@ func RunC11(ctx *core.Ctx) {
 			c11F9(ctx, env, nil)
 		}
 	}
-	per := ctx.Scale(3, 28) // cases per (type, kind)
+	per := ctx.Scale(3, 22) // cases per (type, kind); 22 since round 4 (the reuse pass repeats the oracle on about a third of the cases)
 	var wg sync.WaitGroup
 	sem := make(chan struct{}, 16)
 	for ei, e := range gen.Catalog {
